@@ -114,33 +114,54 @@ fn nav_strat() -> BoxedStrategy<TuiCase> {
     (trace_setup(), ui_setup(false), proptest::collection::vec(nav_op_strat(), 0..=40), prop_oneof![Just(2usize), Just(8), Just(64)])
         .prop_map(|(mut t, ui, ops, max_flows)| {
             t.cfg.max_flows = max_flows;
-            TuiCase { traces: vec![t], ui, ops }
+            TuiCase { traces: vec![t], ui, ops, hash_keys: None }
         })
         .boxed()
 }
 
 fn strat() -> BoxedStrategy<TuiCase> {
     (proptest::collection::vec(trace_setup(), 1..=3), ui_setup(false), proptest::collection::vec(op_strat(true), 0..=40))
-        .prop_map(|(traces, ui, ops)| TuiCase { traces, ui, ops })
+        .prop_map(|(traces, ui, ops)| TuiCase { traces, ui, ops, hash_keys: None })
         .boxed()
 }
 
-fn test(c: &TuiCase, obs: &mut Obs) -> CheckResult {
+pub fn test(c: &TuiCase, obs: &mut Obs) -> CheckResult {
+    match c.hash_keys {
+        // a stored demonstration: fresh thread, fixed hash seeds.  Process-wide lazily built
+        // tables (translations, clap commands, ...) create maps on the thread that first needs
+        // them, so one unkeyed run comes first and the keyed run sees a warm process.
+        Some(k) if !crate::hrand::is_overridden() => {
+            static WARM: std::sync::atomic::AtomicBool = std::sync::atomic::AtomicBool::new(false);
+            if !WARM.swap(true, std::sync::atomic::Ordering::SeqCst) {
+                let _ = std::thread::scope(|s| s.spawn(|| test_inner(c, &mut Obs::default())).join());
+            }
+            crate::hrand::with_hash_keys(k, || test_inner(c, obs))
+        }
+        _ => test_inner(c, obs),
+    }
+}
+
+fn test_inner(c: &TuiCase, obs: &mut Obs) -> CheckResult {
     if std::env::var("VERIF_NO_WATCH").is_err() {
-        WATCH_S.store(20, std::sync::atomic::Ordering::Relaxed);
+        WATCH_S.store(std::env::var("VERIF_WATCH_S").ok().and_then(|v| v.parse().ok()).unwrap_or(90), std::sync::atomic::Ordering::Relaxed);
     }
     let mut s = tui::start(c)?;
     s.refresh_and_draw()?;
     s.check_selection()?;
     let mut modes = std::collections::BTreeSet::new();
     for (i, op) in c.ops.iter().enumerate() {
-        match s.apply(op) {
-            Ok(()) => {}
-            Err(f) if f.sig.starts_with("excluded:") => {
-                obs.excluded("command that would show a 13th column (recorded finding)");
-                continue;
-            }
-            Err(f) => return Err(Fail::new(f.sig, format!("step {i} ({op:?}): {}", f.msg))),
+        if let Err(f) = s.apply(op) {
+            return Err(Fail::new(f.sig, format!("step {i} ({op:?}): {}", f.msg)));
+        }
+        if std::env::var("VERIF_PROGRESS").is_ok() {
+            let area = s.terminal.backend().buffer().area;
+            note_progress(format!(
+                "step {i} {op:?} done; drawing {}x{} columns={} settings={} help={} chart={} map={} flows={} details={} hops={} case={}",
+                area.width, area.height,
+                s.app.tui_config.tui_columns.columns().count(), s.app.show_settings, s.app.show_help, s.app.show_chart, s.app.show_map, s.app.show_flows, s.app.show_hop_details,
+                s.app.tracer_data().hops_for_flow(s.app.selected_flow).len(),
+                engine_hash(c)
+            ));
         }
         s.refresh_and_draw().map_err(|f| Fail::new(f.sig, format!("after step {i} ({op:?}): {}", f.msg)))?;
         s.check_selection().map_err(|f| Fail::new(f.sig, format!("after step {i} ({op:?}): {}", f.msg)))?;
@@ -185,14 +206,21 @@ fn test(c: &TuiCase, obs: &mut Obs) -> CheckResult {
     Ok(())
 }
 
+fn engine_hash(c: &TuiCase) -> String {
+    format!("{:016x}", hash64(&serde_json::to_string(c).unwrap_or_default()))
+}
+
 #[allow(dead_code)]
 fn _cmd(_: Cmd) {}
 
-/// Signature of the recorded finding: ratatui's layout solver can spin forever on the hop table.
-pub const LAYOUT_HANG_SIG: &str = "stuck:table-layout:13-or-more-columns";
+/// Signature of the recorded finding: ratatui's layout solver cycles on the hop table (the
+/// capped solver of `vendor/cassowary` turns the endless loop into this panic).
+pub const LAYOUT_HANG_SIG: &str = "draw:panic:layout solver cycling under render::table@ratatui-0.29.0/src/layout/layout.rs:657";
 
-/// The demonstration input of the recorded finding: all 27 columns and 300 terminal widths.
-pub fn layout_hang_case() -> TuiCase {
+/// The demonstration input of the recorded finding: the default columns plus jitter (twelve, as in the stuck cases the
+/// search met), one trace with a few hops, a handful of terminal sizes; `keys` fixes the hash
+/// seeds (found with `vcheck --find-layout-demo`).
+pub fn layout_demo_case(keys: u64) -> TuiCase {
     let mut ops = vec![Op::Rounds {
         trace: 0,
         rounds: vec![SynRound {
@@ -200,79 +228,42 @@ pub fn layout_hang_case() -> TuiCase {
             largest_sel: 65535,
         }],
     }];
-    for i in 0..300u16 {
-        ops.push(Op::Resize(40 + (i * 7) % 120, 30 + i % 5));
+    for i in 0..24u16 {
+        ops.push(Op::Resize(60 + (i * 7) % 120, 30 + i % 5));
     }
     TuiCase {
         traces: vec![TraceSetup { cfg: TraceCfg { max_ttl: 30, ..TraceCfg::default() }, sim_rounds: 0, fatal: false }],
-        ui: UiSetup { address_mode: 0, as_mode: 0, geoip_mode: 0, icmp_ext_mode: 0, privacy: None, max_addrs: None, columns: "holsravbwdtjgxiSPQTCNfFBDKM".to_string(), as_info: false, width: 100, height: 30 },
+        ui: UiSetup { address_mode: 0, as_mode: 0, geoip_mode: 0, icmp_ext_mode: 0, privacy: None, max_addrs: None, columns: std::env::var("VERIF_DEMO_COLUMNS").unwrap_or_else(|_| "holsravbwdtj".to_string()), as_info: false, width: 100, height: 30 },
         ops,
+        hash_keys: Some(keys),
     }
 }
 
-/// Runs the demonstration input in a child process under a time limit: a hang cannot be
-/// interrupted in-process.
-pub struct KnownLayoutHang;
-
-impl SubCheck for KnownLayoutHang {
-    fn name(&self) -> &str {
-        "table-layout-hang"
-    }
-    fn run(&self, ctx: &Ctx, rep: &Report) {
-        let dir = ctx.out_dir.join("harness").join("target");
-        let _ = std::fs::create_dir_all(&dir);
-        let path = dir.join("c17-layout-hang-demo.json");
-        let body = json!({"property": "C17", "sub": "ui-ops", "sig": LAYOUT_HANG_SIG, "msg": "demonstration input", "case": layout_hang_case()});
-        if std::fs::write(&path, body.to_string()).is_err() {
-            rep.note("table-layout-hang: cannot write the demonstration input");
-            return;
-        }
-        let Ok(exe) = std::env::current_exe() else { return };
-        let Ok(mut child) = std::process::Command::new(exe)
-            .args(["C17", "--replay"])
-            .arg(&path)
-            .env("VERIF_NO_WATCH", "1")
-            .stdout(std::process::Stdio::null())
-            .stderr(std::process::Stdio::null())
-            .spawn()
-        else {
-            rep.note("table-layout-hang: cannot start the child process");
-            return;
-        };
-        let t0 = std::time::Instant::now();
-        let limit = std::time::Duration::from_secs(8);
-        let mut hung = true;
-        while t0.elapsed() < limit {
-            if let Ok(Some(_)) = child.try_wait() {
-                hung = false;
-                break;
-            }
-            std::thread::sleep(std::time::Duration::from_millis(50));
-        }
-        rep.inner.lock().unwrap().evaluations += 1;
-        if hung {
-            let _ = child.kill();
-            let _ = child.wait();
-            let f = Fail::new(LAYOUT_HANG_SIG, "drawing the hop table with all 27 columns over 300 terminal sizes did not return within 8 s (ratatui layout solver)");
-            if let Some(k) = is_known_open(ctx, &f.sig) {
-                let line = format!("KNOWN-FINDING: property={} {} [{}]", ctx.prop, k.what, k.sig);
-                let mut r = rep.inner.lock().unwrap();
-                if !r.known_hits.contains(&line) {
-                    r.known_hits.push(line);
+/// Search hash seeds for which the demonstration input makes the solver cycle.
+pub fn find_layout_demo(from: u64, count: u64) -> Vec<u64> {
+    let next = std::sync::atomic::AtomicU64::new(from);
+    let found = std::sync::Mutex::new(vec![]);
+    std::thread::scope(|s| {
+        for _ in 0..16 {
+            s.spawn(|| loop {
+                let k = next.fetch_add(1, std::sync::atomic::Ordering::Relaxed);
+                if k >= from + count || found.lock().unwrap().len() >= 3 {
+                    break;
                 }
-            } else {
-                let keep = ctx.out_dir.join("replays");
-                let _ = std::fs::create_dir_all(&keep);
-                let kept = keep.join("C17-table-layout-hang.json");
-                let _ = std::fs::copy(&path, &kept);
-                rep.inner.lock().unwrap().violations.push(Violation { sub: "table-layout-hang".into(), sig: f.sig, msg: f.msg, replay: kept.display().to_string() });
-            }
+                let c = layout_demo_case(k);
+                if let Err(f) = test(&c, &mut Obs::default()) {
+                    if f.sig == LAYOUT_HANG_SIG {
+                        found.lock().unwrap().push(k);
+                    } else {
+                        eprintln!("keys {k}: unexpected failure {}: {}", f.sig, f.msg);
+                    }
+                }
+            });
         }
-        rep.sub_summary(json!({"sub": "table-layout-hang", "kind": "child process under a time limit", "hung": hung, "wall_s": t0.elapsed().as_secs_f64()}));
-    }
-    fn replay(&self, _case: &serde_json::Value) -> CheckResult {
-        Ok(())
-    }
+    });
+    let mut v = found.into_inner().unwrap();
+    v.sort_unstable();
+    v
 }
 
 pub fn check() -> PropertyCheck {
@@ -287,7 +278,6 @@ pub fn check() -> PropertyCheck {
         subs: vec![
             Box::new(Pbt { name: "ui-ops", quick: 6_000, thorough: 600_000, strat, test, max_shrink: 3000 }),
             Box::new(Pbt { name: "ui-nav", quick: 6_000, thorough: 600_000, strat: nav_strat, test, max_shrink: 3000 }),
-            Box::new(KnownLayoutHang),
         ],
     }
 }
